@@ -28,6 +28,10 @@ Lemma corrupted_wlog_events_use_put : c05_wlog_corrupted_ops = [0; 0; 0].
 Proof. reflexivity. Qed.
 Lemma inserted_rows_never_expire : c05_insert_ttl = 0%Z.
 Proof. reflexivity. Qed.
+(* apply2's `store` closure builds every batch row from rec.isNew alone: no record kind (singleton
+   or not, CDoc / WDoc / CRecord / WRecord) has its create handed on as an update *)
+Lemma batch_flag_is_cud_is_new_for_every_kind : c05_store_put_kinds = [].
+Proof. reflexivity. Qed.
 
 Section C05.
 Context {V : Type}.
@@ -63,23 +67,27 @@ Theorem log_overwrite_only_when_trusted_or_reapply :
   run_log (log_code k trust corrupted) now st it = (put st (it_pk it) (it_cc it) (it_val it), ROk).
 Proof. exact (log_overwrite_proved plog_guarded_at_levels_0_1 wlog_guarded_at_levels_0_1 reapply_wlog_overwrites corrupted_plog_events_use_put corrupted_wlog_events_use_put). Qed.
 
-(* Level 0, every batch of rows (any length, any mix of creates and updates): if the event
-   creates a record whose id holds a live row, Apply answers SequencesViolation ... *)
+(* Level 0, every batch of rows (any length, any mix of creates and updates), EVERY KIND OF RECORD
+   (`it_kind it` - CDoc, singleton CDoc, WDoc, singleton WDoc, CRecord, WRecord - is a field of the
+   row and unconstrained here; the model's insert-vs-put decision consults it through the table
+   c05_store_put_kinds extracted from apply2's `store` closure, pinned by
+   batch_flag_is_cud_is_new_for_every_kind): if the event creates a record whose id holds a live
+   row, Apply answers SequencesViolation ... *)
 Theorem create_existing_refused :
   forall now (st : store) (items : list item) (it : item) old,
   loads_ok now st items = true ->
   In it items -> it_new it = true -> get now st (it_pk it) (it_cc it) = Some old ->
   snd (run_recs (rec_code KApply 0) now st items) = RViolation.
-Proof. exact (create_existing_refused_proved inserted_rows_never_expire new_records_guarded_at_level_0). Qed.
+Proof. exact (create_existing_refused_proved inserted_rows_never_expire batch_flag_is_cud_is_new_for_every_kind new_records_guarded_at_level_0). Qed.
 
 (* ... and that row (value and expiry) is exactly what it was, whatever else the event wrote
-   before the refusal, unless the same event also updates this very record. *)
+   before the refusal, unless the same event also updates this very record (again for every kind). *)
 Theorem existing_entry_intact :
   forall now (st : store) (items : list item) pk cc,
   get now st pk cc <> None ->
   (forall it, In it items -> key it = (pk, cc) -> it_new it = true) ->
   raw_lookup (fst (run_recs (rec_code KApply 0) now st items)) pk cc = raw_lookup st pk cc.
-Proof. exact (existing_entry_intact_proved inserted_rows_never_expire new_records_guarded_at_level_0). Qed.
+Proof. exact (existing_entry_intact_proved inserted_rows_never_expire batch_flag_is_cud_is_new_for_every_kind new_records_guarded_at_level_0). Qed.
 
 (* Every level, Apply and re-apply: when no guarded row aims at an existing record - in
    particular an event that only updates records - the call succeeds and every record reads
@@ -91,7 +99,7 @@ Theorem updates_and_fresh_creates_succeed :
   (forall it, In it items -> protected trust k (it_new it) = true -> found now st it = false) ->
   snd (run_recs (rec_code k trust) now st items) = ROk /\
   forall it, In it items -> get now (fst (run_recs (rec_code k trust) now st items)) (it_pk it) (it_cc it) = Some (it_val it).
-Proof. exact (apply_succeeds_proved inserted_rows_never_expire new_records_guarded_at_level_0 reapply_records_overwrites reapply_wlog_overwrites). Qed.
+Proof. exact (apply_succeeds_proved inserted_rows_never_expire batch_flag_is_cud_is_new_for_every_kind new_records_guarded_at_level_0 reapply_records_overwrites reapply_wlog_overwrites). Qed.
 
 Theorem updates_always_succeed :
   forall k trust now (st : store) (items : list item),
@@ -100,7 +108,7 @@ Theorem updates_always_succeed :
   (forall it, In it items -> it_new it = false) ->
   snd (run_recs (rec_code k trust) now st items) = ROk /\
   forall it, In it items -> get now (fst (run_recs (rec_code k trust) now st items)) (it_pk it) (it_cc it) = Some (it_val it).
-Proof. exact (updates_always_succeed_proved inserted_rows_never_expire new_records_guarded_at_level_0 reapply_records_overwrites reapply_wlog_overwrites). Qed.
+Proof. exact (updates_always_succeed_proved inserted_rows_never_expire batch_flag_is_cud_is_new_for_every_kind new_records_guarded_at_level_0 reapply_records_overwrites reapply_wlog_overwrites). Qed.
 
 (* Levels 1 and 2 and re-apply at every level write the batch with one PutBatch: existing
    records ARE overwritten (the reading of the statement taken from isequencer/consts.go:
@@ -127,7 +135,7 @@ Theorem agrees_implies_satisfies :
   forall t : gtrace V, gagrees stamp veqb t = true -> gsatisfies stamp veqb t = true.
 Proof.
   exact (fun stamp veqb veqb_eq =>
-    link_proved inserted_rows_never_expire stamp veqb veqb_eq plog_guarded_at_levels_0_1 wlog_guarded_at_levels_0_1
+    link_proved inserted_rows_never_expire batch_flag_is_cud_is_new_for_every_kind stamp veqb veqb_eq plog_guarded_at_levels_0_1 wlog_guarded_at_levels_0_1
       new_records_guarded_at_level_0 reapply_records_overwrites reapply_wlog_overwrites).
 Qed.
 
@@ -143,7 +151,7 @@ Example log_append_refused_full_refuted :
     (k = KPlog \/ k = KWlog) /\ trust < 2 /\ get now st (it_pk it) (it_cc it) = Some old /\
     run_log (log_code k trust corrupted) now st it <> (st, RViolation).
 Proof.
-  exists KPlog, 0, true, 0%Z, (put [] [1] [2] 7), (mkItem [1] [2] true false 8), 7.
+  exists KPlog, 0, true, 0%Z, (put [] [1] [2] 7), (mkItem [1] [2] 0 true false 8), 7.
   repeat split; try (left; reflexivity); try reflexivity. vm_compute. discriminate.
 Qed.
 
@@ -151,7 +159,7 @@ Qed.
 Definition ex_store : store N := put (put [] [0; 3] [0; 10] 70) [0; 4; 9] [0; 1] 50.
 
 Example log_append_refused_nonvacuous :
-  let it := mkItem [0; 3] [0; 10] true false 71 in
+  let it := mkItem [0; 3] [0; 10] 0 true false 71 in
   get 5%Z ex_store (it_pk it) (it_cc it) = Some 70
   /\ run_log (log_code KPlog 1 false) 5%Z ex_store it = (ex_store, RViolation)
   /\ run_log (log_code KWlog 0 false) 5%Z ex_store it = (ex_store, RViolation)
@@ -159,7 +167,7 @@ Example log_append_refused_nonvacuous :
 Proof. vm_compute. repeat split; discriminate. Qed.
 
 Example log_append_empty_nonvacuous :
-  let it := mkItem [0; 3] [0; 11] true false 71 in
+  let it := mkItem [0; 3] [0; 11] 0 true false 71 in
   get 5%Z ex_store (it_pk it) (it_cc it) = None
   /\ get 5%Z (fst (run_log (log_code KPlog 0 false) 5%Z ex_store it)) [0; 3] [0; 11] = Some 71
   /\ get 5%Z (fst (run_log (log_code KPlog 0 false) 5%Z ex_store it)) [0; 3] [0; 10] = Some 70.
@@ -168,8 +176,8 @@ Proof. vm_compute. repeat split. Qed.
 (* a three-row event at level 0: a fresh create is written, then a create of an existing id is
    refused; the existing record is intact, the update behind it is never reached *)
 Example create_existing_refused_nonvacuous :
-  let items := [mkItem [0; 4; 9] [0; 2] true false 51; mkItem [0; 4; 9] [0; 1] true false 52;
-                mkItem [0; 3] [0; 10] false false 72] in
+  let items := [mkItem [0; 4; 9] [0; 2] 5 true false 51; mkItem [0; 4; 9] [0; 1] 2 true false 52;
+                mkItem [0; 3] [0; 10] 3 false false 72] in
   let r := run_recs (rec_code KApply 0) 5%Z ex_store items in
   loads_ok 5%Z ex_store items = true
   /\ snd r = RViolation
@@ -181,7 +189,7 @@ Example create_existing_refused_nonvacuous :
 Proof. vm_compute. repeat split. Qed.
 
 Example updates_succeed_nonvacuous :
-  let items := [mkItem [0; 4; 9] [0; 1] false true 53; mkItem [0; 3] [0; 10] false false 73] in
+  let items := [mkItem [0; 4; 9] [0; 1] 4 false true 53; mkItem [0; 3] [0; 10] 1 false false 73] in
   loads_ok 5%Z ex_store items = true /\ NoDup (map key items)
   /\ run_recs (rec_code KApply 0) 5%Z ex_store items = (put_batch ex_store (rows items), ROk)
   /\ get 5%Z (fst (run_recs (rec_code KReapplyRecs 0) 5%Z ex_store items)) [0; 4; 9] [0; 1] = Some 53.
@@ -191,8 +199,8 @@ Qed.
 
 (* a two-step observed trace (level 0, PLog: first append stored, second refused) passes both checks *)
 Example link_nonvacuous :
-  let it1 := mkItem [0; 3] [0; 10] true false (1, 100) in
-  let it2 := mkItem [0; 3] [0; 10] true false (2, 101) in
+  let it1 := mkItem [0; 3] [0; 10] 0 true false (1, 100) in
+  let it2 := mkItem [0; 3] [0; 10] 0 true false (2, 101) in
   let o := mkObs (Some (1, 100)) (Some (1, 100)) (Some 100) in
   let t := mkTrace 0 0
     [mkStep KPlog false [mkSlot it1 (mkObs None None None) o] ROk [CIns [0; 3] [0; 10] (1, 100) 0%Z true];
